@@ -20,8 +20,7 @@ EXPLANATION = ("The real driving-force function get_partial_fluxes_from_permeate
                "permeate mode: the permeances it reports must be the ones the fluxes were computed with.  Curve from permeances: fluxes = "
                "permeance x feed partial pressure and re-inversion returns the permeances; permeances supplied in SI / GPU / kg are exposed in "
                "kg/(m2 h kPa).  Activity coefficients and saturation pressures are UFs (congruence links solver and curve).")
-OUTSIDE = ("curves with more points than the bound (the constructor treats points independently); the activity model of the curve side is the "
-           "library default (NRTL), the constructor offers no choice; float rounding")
+OUTSIDE = ("curves with more points than the bound (the constructor treats points independently); float rounding")
 R_ = "vf.props.C09:concrete"
 
 
@@ -34,6 +33,8 @@ def concrete(inp):
     if not (P1 > 0 and P2 > 0):
         return {"ok": True, "detail": "outside domain"}
     mode = inp.get("mode", "vac")
+    model = inp.get("model") or "NRTL"
+    kw = {} if model == "NRTL" else {"calculation_type": model}
     Tp = inp.get("Tp") if mode == "ptemp" else None
     Pp = inp.get("Pp") if mode == "ppres" else None
     bad = []
@@ -44,16 +45,19 @@ def concrete(inp):
         try:
             with warnings.catch_warnings():
                 warnings.simplefilter("ignore")
-                j = pz.calculate_partial_fluxes(T, comp, 1e-9, Tp, Pp, pv.Permeance(P1), pv.Permeance(P2))
+                j = pz.calculate_partial_fluxes(T, comp, 1e-9, Tp, Pp, pv.Permeance(P1), pv.Permeance(P2), calculation_type=model)
                 if not (j[0] > 0 and j[1] > 0):
                     continue
                 dc = DiffusionCurve(mixture=mix, membrane_name="m", feed_temperature=T, feed_compositions=[comp], partial_fluxes=[tuple(j)],
-                                    permeate_temperature=Tp, permeate_pressure=Pp)
+                                    permeate_temperature=Tp, permeate_pressure=Pp, **kw)
         except ValueError:
+            continue
+        except TypeError as e:
+            bad.append("%s: a curve cannot be told that its fluxes were computed with %s (%s)" % (name, model, e))
             continue
         got = (dc.permeances[0][0].value, dc.permeances[0][1].value)
         if not (close(got[0], P1, 1e-6) and close(got[1], P2, 1e-6)):
-            bad.append("%s %s: fluxes computed with permeances (%r, %r) invert to (%r, %r)" % (name, mode, P1, P2, float(got[0]), float(got[1])))
+            bad.append("%s %s %s: fluxes computed with permeances (%r, %r) invert to (%r, %r)" % (name, mode, model, P1, P2, float(got[0]), float(got[1])))
         # curve from permeances, units
         for units in (Units.kg_m2_h_kPa, Units.SI, Units.GPU):
             ps = (pv.Permeance(P1).convert(units, mix.first_component), pv.Permeance(P2).convert(units, mix.second_component))
@@ -77,17 +81,18 @@ def clamp(v):
     return z3.If(v >= 0, v, 0)
 
 
-def inversion(job, mode, basis):
+def inversion(job, mode, basis, model="NRTL"):
     job.bound(curve_points=1)
-    job.stub("GAMMA_i^NRTL(T, x) > 0", "PSAT_i(T) > 0")
+    job.stub("GAMMA_i^%s(T, x) > 0" % model, "PSAT_i(T) > 0")
     job.assume("Composition validator as assumption; Permeance clamp real (forks)", "self-consistent permeate: y* = J1/(J1+J2), 0 < y* < 1, fluxes > 0",
                "273 < T < 400, 0 < x < 1, P1, P2 > 0, permeate condition in range", "denominators non-zero")
-    fs = flux.FluxSetup(mode, "NRTL")
+    fs = flux.FluxSetup(mode, model)
     ys = real("ystar")
     dom = fs.domain() + [ys.t > 0, ys.t < 1]
-    inputs = fs.inputs()
-    fb = flux.fallback_for(mode)
-    tag = "C09/%s/%s" % (mode, basis)
+    inputs = fs.inputs(model=model)
+    fb = [dict(f, model=model) for f in flux.fallback_for(mode)]
+    tag = "C09/%s/%s" % (mode, basis) + ("" if model == "NRTL" else "/" + model)
+    kw = {} if model == "NRTL" else {"calculation_type": model}
     feed = lambda: build.comp(fs.x if basis == "weight" else build.S(build.x_of_w(fs.x, fs.M1, fs.M2)), basis)
     with Patches() as pt:
         build.stub_thermo(pt, fs.mix)
@@ -95,9 +100,12 @@ def inversion(job, mode, basis):
 
         def run():
             j = fs.pz.get_partial_fluxes_from_permeate_composition(build.perm(fs.P1), build.perm(fs.P2), build.comp(ys, "weight"), feed(), fs.T,
-                                                                   fs.Tp, fs.Pp, "NRTL")
-            dc = DiffusionCurve(mixture=fs.mix, membrane_name="m", feed_temperature=fs.T, feed_compositions=[feed()], partial_fluxes=[(j[0], j[1])],
-                                permeate_temperature=fs.Tp, permeate_pressure=fs.Pp)
+                                                                   fs.Tp, fs.Pp, model)
+            try:
+                dc = DiffusionCurve(mixture=fs.mix, membrane_name="m", feed_temperature=fs.T, feed_compositions=[feed()], partial_fluxes=[(j[0], j[1])],
+                                    permeate_temperature=fs.Tp, permeate_pressure=fs.Pp, **kw)
+            except TypeError as e:
+                dc = e
             return j, dc
 
         got = 0
@@ -105,6 +113,10 @@ def inversion(job, mode, basis):
             if leaf.kind != "returned":
                 continue
             j, dc = leaf.value
+            if isinstance(dc, TypeError):
+                got += 1
+                job.judge(tag + "/curve_accepts_activity_model", False, "DiffusionCurve(calculation_type=%r): %s" % (model, dc), R_, dict(fb[0], mode=mode))
+                continue
             J1, J2 = lift(j[0]), lift(j[1])
             sc = [ys.t == J1 / (J1 + J2), J1 > 0, J2 > 0]
             cs = dom + leaf.conds() + sc
@@ -112,7 +124,7 @@ def inversion(job, mode, basis):
                 continue  # e.g. the clamped branch of the Permeance constructor
             got += 1
             job.twin_sat(tag + "/twin", cs, timeout=10)
-            cg = ["GAMMA1_NRTL", "GAMMA2_NRTL", "PSAT1", "PSAT2"]
+            cg = ["GAMMA1_" + model, "GAMMA2_" + model, "PSAT1", "PSAT2"]
             st = job.prove(tag + "/inversion", cs, [lift(dc.permeances[0][0].value) != fs.P1.t, lift(dc.permeances[0][1].value) != fs.P2.t],
                            R_, inputs, fallback=fb, congruence=cg, timeout=30)
             if st == "violated" and mode == "ppres":
@@ -192,5 +204,7 @@ def from_permeances(job):
 
 def jobs(tier):
     js = [("inversion_%s_%s" % (mode, basis), "inversion", {"mode": mode, "basis": basis}) for mode in flux.MODES for basis in ("weight", "molar")]
+    js += [("inversion_%s_%s_UNIQUAC" % (mode, basis), "inversion", {"mode": mode, "basis": basis, "model": "UNIQUAC"})
+           for mode in flux.MODES for basis in (("weight",) if tier == "quick" else ("weight", "molar"))]
     js.append(("from_permeances", "from_permeances", {}))
     return js
